@@ -48,6 +48,18 @@ pub fn crc32(data: &[u8]) -> u32 {
     !c
 }
 
+pub fn crc64(data: &[u8]) -> u64 {
+    const POLY: u64 = 0xC96C_5795_D787_0F42;
+    let mut c = !0u64;
+    for b in data {
+        c ^= *b as u64;
+        for _ in 0..8 {
+            c = if c & 1 != 0 { (c >> 1) ^ POLY } else { c >> 1 };
+        }
+    }
+    !c
+}
+
 /// LZIP member boundaries (start, end) by walking the trailers backwards.
 pub fn lzip_members(file: &[u8]) -> Vec<(usize, usize)> {
     let mut v = vec![];
@@ -238,6 +250,102 @@ pub fn structured_mutants(item: &Item, mut emit: impl FnMut(Mutant)) {
                         m2[l.footer_start + 8 + (idx - 6)] = v;
                         fix_footer_crc(&mut m2, &l);
                         emit(Mutant { desc: format!("xz:streamflag[{idx}]={v}+footer+crc"), class: "field+crc", bytes: m2 });
+                    }
+                }
+            }
+            // The last LZMA2 chunk's uncompressed size lowered by k, with *everything* that is computed from the content made
+            // consistent with the shortened content (block check, index record, index CRC): only the LZMA data itself now
+            // says more than its chunk header. Single block, no sizes in the block header, CRC32 or CRC64 check.
+            if l.blocks.len() == 1 && f[7] != 0x0A {
+                let (hs, hl, _) = l.blocks[0];
+                let check_len = match f[7] {
+                    0x01 => 4usize,
+                    0x04 => 8,
+                    _ => 0,
+                };
+                if check_len != 0 && f[hs + 1] & 0xC0 == 0 {
+                    // index: 00, count=1, unpadded, uncompressed
+                    let mut p = l.index_start + 2;
+                    let rd = |p: &mut usize| -> u64 {
+                        let mut v = 0u64;
+                        let mut sh = 0;
+                        loop {
+                            let b = f[*p];
+                            *p += 1;
+                            v |= ((b & 0x7F) as u64) << sh;
+                            sh += 7;
+                            if b & 0x80 == 0 {
+                                return v;
+                            }
+                        }
+                    };
+                    let unpadded = rd(&mut p) as usize;
+                    let unc_pos = p;
+                    let unc = rd(&mut p) as usize;
+                    let unc_vli_len = p - unc_pos;
+                    let data_start = hs + hl;
+                    let comp_len = unpadded - hl - check_len;
+                    let data = &f[data_start..data_start + comp_len];
+                    // walk the chunks; remember the last LZMA chunk's header position
+                    let mut i = 0usize;
+                    let mut last: Option<(usize, usize)> = None; // (offset of the control byte, its uncompressed size)
+                    let mut ok = true;
+                    while i < data.len() && data[i] != 0 {
+                        let c = data[i];
+                        if c >= 0x80 {
+                            if i + 5 > data.len() {
+                                ok = false;
+                                break;
+                            }
+                            let un = (((c & 0x1F) as usize) << 16) + u16::from_be_bytes([data[i + 1], data[i + 2]]) as usize + 1;
+                            let cs = u16::from_be_bytes([data[i + 3], data[i + 4]]) as usize + 1;
+                            last = Some((i, un));
+                            i += 5 + if c >= 0xC0 { 1 } else { 0 } + cs;
+                        } else {
+                            if i + 3 > data.len() {
+                                ok = false;
+                                break;
+                            }
+                            last = None;
+                            i += 3 + u16::from_be_bytes([data[i + 1], data[i + 2]]) as usize + 1;
+                        }
+                    }
+                    if let (true, Some((ci, un)), true) = (ok, last, unc == item.input.len()) {
+                        for k in [1usize, 2, 3, 7] {
+                            if un <= k || unc <= k {
+                                continue;
+                            }
+                            // the new uncompressed size must need as many multibyte-integer bytes as the old one
+                            let vli_len = |v: usize| if v == 0 { 1 } else { (usize::BITS - v.leading_zeros()).div_ceil(7) as usize };
+                            if vli_len(unc - k) != unc_vli_len {
+                                continue;
+                            }
+                            let mut m = f.clone();
+                            let nu = un - k - 1;
+                            let c = m[data_start + ci];
+                            m[data_start + ci] = (c & 0xE0) | ((nu >> 16) as u8 & 0x1F);
+                            m[data_start + ci + 1] = (nu >> 8) as u8;
+                            m[data_start + ci + 2] = nu as u8;
+                            // block check over the shortened content
+                            let content = &item.input[..unc - k];
+                            let check_pos = data_start + comp_len.div_ceil(4) * 4;
+                            if check_len == 4 {
+                                m[check_pos..check_pos + 4].copy_from_slice(&crc32(content).to_le_bytes());
+                            } else {
+                                m[check_pos..check_pos + 8].copy_from_slice(&crc64(content).to_le_bytes());
+                            }
+                            // index record and index CRC
+                            let mut v = unc - k;
+                            for j in 0..unc_vli_len {
+                                let more = j + 1 < unc_vli_len;
+                                m[unc_pos + j] = (v & 0x7F) as u8 | if more { 0x80 } else { 0 };
+                                v >>= 7;
+                            }
+                            let crc_pos = l.index_start + l.index_len - 4;
+                            let c = crc32(&m[l.index_start..crc_pos]);
+                            m[crc_pos..crc_pos + 4].copy_from_slice(&c.to_le_bytes());
+                            emit(Mutant { desc: format!("xz:last-chunk-size-{k}+all-checks"), class: "consistent-shorten", bytes: m });
+                        }
                     }
                 }
             }
@@ -458,6 +566,17 @@ pub fn run(cli: &Cli, rep: &Report) {
     rep.assumption("LZIP tolerance applied exactly as the property states it (complete identical leading members followed by bytes not starting with the magic)");
     let items = {
         let mut v = c04_items();
+        // single-block files whose last LZMA symbol is a 40-byte match (for the consistent-shortening mutants)
+        {
+            let o = crate::codec::Opts::small();
+            let input = gen::build(&[gen::Seg::C(100), gen::Seg::D(30, 40)], 1);
+            for check in [1u8, 4] {
+                let cont = Container::Xz { check, block: None, filters: vec![] };
+                if let Ok(bytes) = crate::codec::encode(&cont, &o, &input, &[]) {
+                    v.push(Item { name: format!("xz-c{check}-endmatch"), cont, opts: o, input: input.clone(), bytes, foreign: false });
+                }
+            }
+        }
         // two concatenated XZ streams (multi-stream reader only), with 0 and 4 bytes of stream padding between them:
         // the second stream's header, and the padding, are places no single-stream file has
         {
